@@ -99,6 +99,18 @@ Proof.
         apply in_app_or in H as [H|[H|[]]]; [now left|right; left; now cbn in H].
 Qed.
 
+Lemma fold_known_all t known :
+  exists K1, fold_left (from_dict_step t) (KD t known) (@nil (str * str), @nil (str * str)) = (K1, @nil (str * str)) /\
+    (forall kf, In kf (known_fields t) -> lookup (fst kf) K1 = RP (snd kf) (lookup (fst kf) known)).
+Proof.
+  destruct (fold_known t known (known_fields t) [] []) as (K1 & E1 & H1 & H2 & H3).
+  - pose proof (known_names_no_hyphen t) as Hh. rewrite Forall_forall in *. intros kf Hin. split; [now apply Hh|].
+    apply known_name_In. now apply in_map.
+  - apply known_names_nodup.
+  - intros kf _ [].
+  - exists K1. split; [exact E1|exact H2].
+Qed.
+
 (* feeding the extra part *)
 Lemma fold_extra t : forall (ex : pydict str) K0 E0,
   (forall k, In k (keys ex) -> known_name t k = false /\ ~ In 45 k) -> NoDup (keys ex) ->
@@ -126,15 +138,15 @@ Theorem from_dict_to_dict t known extra lines :
   para_to_dict (para_from_dict t (para_to_dict p)) = para_to_dict p.
 Proof.
   intros Hek Hex Hkn p. subst p. rewrite (to_dict_shape t known extra lines Hek).
-  rewrite para_from_dict_unfold. rewrite fold_left_app.
-  destruct Hek as [Hnd Hk].
-  destruct (fold_known t known (known_fields t) [] []) as (K1 & E1 & H1 & H2 & H3).
-  { pose proof (known_names_no_hyphen t) as Hh. rewrite Forall_forall in *. intros kf Hin. split; [now apply Hh|].
-    apply known_name_In. now apply in_map. }
-  { apply known_names_nodup. }
-  { intros kf _ []. }
-  unfold KD at 1. rewrite E1. rewrite (fold_extra t extra K1 []); [|exact Hk|exact Hnd|intros k _ []|eapply Forall_impl; [|exact Hex]; now intros kv [H _]].
-  cbn [app]. set (E' := map (fun kv => (fst kv, from_formatted_text (enc (snd kv)))) extra).
+  rewrite para_from_dict_unfold. destruct Hek as [Hnd Hk].
+  destruct (fold_known_all t known) as (K1 & E1 & H2).
+  set (E' := map (fun kv : str * str => (fst kv, from_formatted_text (enc (snd kv)))) extra).
+  destruct (fold_left (from_dict_step t) (KD t known ++ ED extra) ([], [])) as [a b] eqn:Ef.
+  rewrite fold_left_app, E1 in Ef.
+  assert (Ex : fold_left (from_dict_step t) (ED extra) (K1, []) = (K1, [] ++ E')).
+  { apply fold_extra; [exact Hk|exact Hnd|intros k _ []|eapply Forall_impl; [|exact Hex]; now intros kv [H _]]. }
+  assert (Eab : (a, b) = (K1, [] ++ E')) by exact (eq_trans (eq_sym Ef) Ex).
+  inversion Eab; subst a b. cbn [app].
   assert (Hek' : extra_keys_ok t E').
   { subst E'. unfold extra_keys_ok, keys. rewrite map_map. cbn [fst]. split; [exact Hnd|exact Hk]. }
   rewrite (to_dict_shape t K1 E' [] Hek'). f_equal.
